@@ -213,6 +213,7 @@ func init() {
 		jobs = append(jobs, vx.Job{Scenario: "panel.valve", Weight: 1})
 		jobs = append(jobs, vx.Job{Scenario: "panel.valve.sched", Bound: b(2, 3), Weight: 4})
 		jobs = append(jobs, vx.Job{Scenario: "panel.valve.sched", Params: vx.P("round", "1", "conns", "2"), Bound: b(2, 3), Weight: 5})
+		jobs = append(jobs, vx.Job{Scenario: "panel.valve.sched", Params: vx.P("lastclose", "1", "conns", "2"), Bound: b(2, 3), Weight: 5})
 		for i := range jobs {
 			jobs[i].BudgetS = b(100, 900)
 		}
